@@ -476,7 +476,15 @@ func (p *Prog) walkSwitchCase(f *Func, b *cfg.Block, caseExpr ast.Expr, st *psta
 			q := &evaluator{p: p, f: f, st: st, busy: map[*types.Var]bool{}, quiet: true}
 			ct = mk("==", q.eval(tag), st.ev.eval(caseExpr))
 		} else {
-			ct = st.ev.eval(caseExpr) // tagless switch: the case expression is the condition
+			// tagless switch: the case expression is the condition; a module call in a later operand of && / ||
+			// runs only when the earlier operands let it
+			if p.needsSplit(f, caseExpr) {
+				p.branchSC(f, caseExpr, caseExpr, st,
+					func(s *pstate) { p.walk(f, b.Succs[0], s, out) },
+					func(s *pstate) { p.walk(f, b.Succs[1], s, out) })
+				return
+			}
+			ct = boolSimplify(st.ev.eval(caseExpr))
 		}
 	}
 	if ct == nil {
